@@ -41,7 +41,7 @@ private theorem matchMem (o n : SchemaD) (t t' : TypeD) (k : Kind) (ht : t ∈ o
 def ArgsRelS (as bs : List ArgD) : Prop :=
   ∀ a ∈ as, ∃ b, bs.find? (·.name == a.name) = some b ∧ sub a.type b.type = true ∧ becameRequired a b = false
 
-theorem sub_refl' (t : Ty) : sub t t = true := by rw [← safeIn_eq_sub]; exact safeIn_refl t
+theorem sub_refl_in (t : Ty) : sub t t = true := by rw [← safeIn_eq_sub]; exact safeIn_refl t
 
 theorem sub_base (t t' : Ty) (h : sub t t' = true) : t'.base = t.base :=
   (safeIn_base t t' (by rw [safeIn_eq_sub]; exact h)).symm
@@ -127,7 +127,7 @@ theorem nobreaking_V_getFieldDef_in (o n : SchemaD) (h : diffSchema o n 2 = []) 
       intro a ha
       simp only [typeField, List.mem_singleton] at ha
       subst ha
-      exact ⟨_, by simp [typeField], sub_refl' _, becameRequired_self _⟩
+      exact ⟨_, by simp [typeField], sub_refl_in _, becameRequired_self _⟩
     · rw [if_neg c2] at hf hn
       by_cases c3 : (isComposite o p && name == "__typename") = true
       · rw [if_pos c3] at hf hn
